@@ -26,6 +26,7 @@ type c19Setup struct {
 	zOld       []world.Event
 	dpReserve  bool
 	altConfig  string
+	adoptReady bool
 	releaseIPs func()
 }
 
@@ -137,6 +138,8 @@ func c19Entries(s *c19Setup) map[string]func() {
 			w.Plugin.GetIpam().Collect(ch)
 		},
 		"preempt": func() { w.Preempt(s.x.Key()) },
+		// the pod-IP sync adopts the address of a running pod whose record is missing (AllocateSpecificIP from the pod's annotation)
+		"adopt": func() { w.SyncPodIPs() },
 		"fipevents": func() {
 			_ = w.Reserve("10.10.2.2")
 			_ = w.Unreserve("10.10.2.2")
@@ -170,6 +173,20 @@ func c19IPAMScenarios(tier string) []*Scenario {
 					if strings.HasPrefix(n, "unbind-crd") && s.crdOld == nil {
 						c19PrepareCRDUnbind(w, s)
 					}
+					if n == "adopt" && !s.adoptReady {
+						s.adoptReady = true
+						q := world.PodSpec{Name: "q-0", NS: "ns", OwnerKind: "StatefulSet", OwnerName: "q"}
+						w.SetStatefulSet("ns", "q", 1)
+						w.CreatePod(q)
+						mustSchedule(w, q.Key())
+						w.SetPhase(q.Key(), corev1.PodRunning)
+						takePending(w)
+						if infos, err := w.Plugin.GetIpam().ByPrefix("sts_ns_q_q-0"); err == nil {
+							for _, e := range infos {
+								_ = w.Plugin.GetIpam().Release(e.Key, e.FloatingIP.IP)
+							}
+						}
+					}
 					if n == "bind-cache-miss" {
 						// reset the node-subnet cache after y was filtered: same pools, other text
 						w.ConfigMap = strings.Replace(w.ConfigMap, `"vlan":2`, `"vlan":3`, 1)
@@ -199,7 +216,8 @@ func c19IPAMScenarios(tier string) []*Scenario {
 	for _, pr := range [][]string{{"filter-dp-replacement", "release"}, {"filter-dp-replacement", "resync"}, {"filter-dp-replacement", "list"}, {"filter-ranges", "bind"}, {"filter-ranges", "unbind"}, {"filter-ranges", "reload"}, {"filter-ranges", "release"}, {"filter-ranges", "filter-ranges"}, {"preempt-z", "unbind"}, {"preempt-z", "resync"}, {"preempt-z", "release"}, {"preempt-z", "reload"}, {"filter-z", "unbind"}, {"filter-z", "resync"}, {"filter-z", "release"}, {"filter-y", "bind"}, {"filter-y", "update-running"}, {"filter-crd-known", "filter-crd-unknown"}, {"filter-crd-unknown", "filter-crd-unknown"}, {"filter-crd-known", "filter-crd-known"},
 		{"filter-crd-unknown", "resync"}, {"filter-crd-known", "reload"}, {"filter-crd-unknown", "bind"},
 		{"filter-crd-known", "filter-crd-fresh"}, {"filter-crd-fresh", "filter-crd-fresh"}, {"filter-crd-fresh", "filter-crd-unknown"},
-		{"unbind-crd-known", "unbind-crd-fresh"}, {"unbind-crd-fresh", "filter-crd-known"}} {
+		{"unbind-crd-known", "unbind-crd-fresh"}, {"unbind-crd-fresh", "filter-crd-known"},
+		{"adopt", "list"}, {"adopt", "collect"}, {"adopt", "filter"}, {"adopt", "release"}, {"adopt", "fipevents"}, {"adopt", "preempt"}} {
 		out = append(out, mk(pr))
 	}
 	triples := [][]string{{"filter", "bind", "unbind"}, {"filter-crd-known", "filter-crd-unknown", "filter-crd-known"}, {"filter", "resync", "reload"}, {"bind", "release", "resync"}, {"pool", "filter", "preempt"}, {"reload", "collect", "bind"},
